@@ -353,15 +353,24 @@ Proof.
   apply skip_ign_ext in E; [|apply skip_ok_0]. destruct E as (mid & T & C). eapply mk_ext; eassumption.
 Qed.
 
+Lemma skip_to_lb_cons ch r c skip : skip_to_lb (ch :: r) c skip =
+    if skip =? 0 then
+      let '(k, n) := decide_next_token (ch :: r) in
+      if tkind_eqb k TLineBreak then Some (drop_bytes n (ch :: r), c + n)
+      else if is_ignorable k then skip_to_lb r (c + utf8_len ch) (n - utf8_len ch) else None
+    else skip_to_lb r (c + utf8_len ch) (skip - utf8_len ch).
+Proof. reflexivity. Qed.
+
 Lemma skip_to_lb_ext : forall t c skip t' c', skip_ok t skip -> skip_to_lb t c skip = Some (t', c') ->
   exists mid, t = mid ++ t' /\ c' = c + bytes_len mid.
 Proof.
-  induction t as [|ch r IH]; intros c skip t' c' Hs; cbn [skip_to_lb].
-  - intros H. injection H as <- <-. exists []. split; [reflexivity | cbn [bytes_len]; lia].
-  - destruct (skip =? 0) eqn:Ez.
+  induction t as [|ch r IH]; intros c skip t' c' Hs.
+  - cbn [skip_to_lb]. intros H. injection H as <- <-. exists []. split; [reflexivity | cbn [bytes_len]; lia].
+  - rewrite skip_to_lb_cons. destruct (skip =? 0) eqn:Ez.
     + destruct (decide_next_token (ch :: r)) as [k n] eqn:Et.
       destruct (tkind_eqb k TLineBreak).
-      * intros H. injection H as <- <-.
+      * intros H. assert (E1 : drop_bytes n (ch :: r) = t') by congruence. assert (E2 : c + n = c') by congruence.
+        subst t' c'. clear H.
         destruct (decide_next_token_prefix (ch :: r) k n ltac:(discriminate) Et) as (p & s & E & -> & _).
         rewrite E, drop_blen_app. exists p. split; reflexivity.
       * destruct (is_ignorable k); [|discriminate].
@@ -383,7 +392,7 @@ Lemma xtoken_ext w k n : xtoken w = (k, n) -> ext w (advance w n) /\ exists p s,
 Proof.
   unfold xtoken. destruct (tail w) as [|ch r] eqn:T.
   - intros H. injection H as _ <-. split.
-    + exists []. unfold advance. cbn [tail cur lim]. rewrite T. cbn [drop_bytes app bytes_len]. repeat split. lia.
+    + exists []. unfold advance. cbn [tail cur lim]. rewrite T. cbn [drop_bytes app bytes_len]. repeat split; lia.
     + exists [], []. split; reflexivity.
   - intros H. destruct (decide_next_token_prefix (ch :: r) k n ltac:(discriminate) H) as (p & s & E & -> & _).
     split.
@@ -440,3 +449,1093 @@ Proof.
   - intros H. injection H as <- _. eapply xmaybe_expect_ext; eassumption.
   - apply IH.
 Qed.
+
+(* ================================================================================================ *)
+(* D. the generic expression parser                                                                  *)
+
+Lemma bind_ok' {X Y} (m : pres X) (f : X -> walker -> pres Y) r w' :
+  bind m f = POk r w' -> exists a w1, m = POk a w1 /\ f a w1 = POk r w'.
+Proof. destruct m; cbn [bind]; intros H; try discriminate; eauto. Qed.
+
+Lemma payloads_block {A} (es : list (gexpr A)) : gexpr_payloads (GBlock es) = flat_map gexpr_payloads es.
+Proof. induction es as [|x r IH]; [reflexivity|]. cbn [flat_map]. rewrite <- IH. reflexivity. Qed.
+Lemma payloads_call {A} (f : gexpr A) (es : list (gexpr A)) : gexpr_payloads (GCall f es) = gexpr_payloads f ++ flat_map gexpr_payloads es.
+Proof.
+  assert (E : gexpr_payloads (GCall f es) = gexpr_payloads f ++ gexpr_payloads (GBlock es)) by reflexivity.
+  rewrite E, payloads_block. reflexivity.
+Qed.
+
+Section ExprInv.
+Context {A : Type}.
+Variable t : text.
+Variable hook : walker -> pres (span * A).
+Variable Pay : span * A -> Prop.
+Hypothesis Hhook : forall w r w', wf t w -> hook w = POk r w' -> ext w w' /\ Pay r.
+
+Definition PayE (e : gexpr A) : Prop := Forall Pay (gexpr_payloads e).
+
+Lemma payE_flat es : Forall PayE es -> Forall Pay (flat_map gexpr_payloads es).
+Proof. induction 1 as [|x r Hx Hr IH]; cbn [flat_map]; [constructor|]. apply Forall_app. split; assumption. Qed.
+Lemma payE_block es : Forall PayE es -> PayE (GBlock es).
+Proof. intros H. unfold PayE. rewrite payloads_block. apply payE_flat. exact H. Qed.
+Lemma payE_call f es : PayE f -> Forall PayE es -> PayE (GCall f es).
+Proof. intros Hf H. unfold PayE. rewrite payloads_call. apply Forall_app. split; [exact Hf | apply payE_flat; exact H]. Qed.
+Lemma payE_un o e : PayE e -> PayE (GUn o e).
+Proof. auto. Qed.
+Lemma payE_bin o a b : PayE a -> PayE b -> PayE (GBin o a b).
+Proof. intros. unfold PayE. cbn [gexpr_payloads]. apply Forall_app. auto. Qed.
+Lemma payE_tern a b c : PayE a -> PayE b -> PayE c -> PayE (GTern a b c).
+Proof. intros. unfold PayE. cbn [gexpr_payloads]. repeat (apply Forall_app; split); auto. Qed.
+Lemma payE_slice a b c : PayE a -> PayE b -> PayE c -> PayE (GSlice a b c).
+Proof. intros. unfold PayE. cbn [gexpr_payloads]. repeat (apply Forall_app; split); auto. Qed.
+Lemma payE_short a b : PayE a -> PayE b -> PayE (GShort a b).
+Proof. intros. unfold PayE. cbn [gexpr_payloads]. apply Forall_app. auto. Qed.
+Lemma payE_asm sp b : Pay (sp, b) -> PayE (GAsm sp b).
+Proof. intros. unfold PayE. cbn [gexpr_payloads]. auto. Qed.
+Lemma payE_nil_block : PayE (GBlock []).
+Proof. apply payE_block. constructor. Qed.
+Lemma payE_num v s : PayE (GNum v s). Proof. constructor. Qed.
+Lemma payE_bool b : PayE (GBool b). Proof. constructor. Qed.
+Lemma payE_str s : PayE (GStr s). Proof. constructor. Qed.
+Lemma payE_var l p : PayE (GVar l p). Proof. constructor. Qed.
+
+Definition ok_e (w : walker) (r : pres (gexpr A)) : Prop := forall e w', r = POk e w' -> ext w w' /\ PayE e.
+Definition ok_l (w : walker) (r : pres (list (gexpr A))) : Prop := forall es w', r = POk es w' -> ext w w' /\ Forall PayE es.
+
+Definition einv (fuel : nat) : Prop :=
+  (forall depth w, wf t w -> ok_e w (gparse_expr hook fuel depth w)) /\
+  (forall depth w, wf t w -> ok_e w (gparse_assign hook fuel depth w)) /\
+  (forall depth lv w, wf t w -> ok_e w (gparse_levels hook fuel depth lv w)) /\
+  (forall depth ops inner l w, wf t w -> PayE l -> ok_e w (gbinary_loop hook fuel depth ops inner l w)) /\
+  (forall depth w, wf t w -> ok_e w (gparse_slice hook fuel depth w)) /\
+  (forall depth w, wf t w -> ok_e w (gparse_short hook fuel depth w)) /\
+  (forall depth w, wf t w -> ok_e w (gparse_unary hook fuel depth w)) /\
+  (forall depth w, wf t w -> ok_e w (gparse_call hook fuel depth w)) /\
+  (forall depth w acc, wf t w -> Forall PayE acc -> ok_l w (gparse_args hook fuel depth w acc)) /\
+  (forall depth w, wf t w -> ok_e w (gparse_leaf hook fuel depth w)) /\
+  (forall depth w acc, wf t w -> Forall PayE acc -> ok_l w (gparse_block hook fuel depth w acc)) /\
+  (forall w level, wf t w -> ok_e w (gparse_var_dots hook fuel w level)) /\
+  (forall w level acc, wf t w -> ok_e w (gparse_var_names hook fuel w level acc)).
+
+End ExprInv.
+
+(* --- the stepping tactic shared by all the invariant proofs of this file --- *)
+Ltac have_wf t w' :=
+  lazymatch goal with
+  | _ : wf t w' |- _ => idtac
+  | He : ext ?w w', Hw : wf t ?w |- _ => assert (wf t w') by (eapply wf_ext; [exact Hw | exact He])
+  end.
+
+Ltac ext_chain :=
+  solve [ apply ext_refl | eassumption
+        | eapply ext_trans; [eassumption|]; ext_chain ].
+
+Ltac pstep t :=
+  match goal with
+  | H : bind _ _ = POk _ _ |- _ =>
+      apply bind_ok' in H; let a := fresh "a" in let w := fresh "w" in let Hm := fresh "Hm" in
+      destruct H as (a & w & Hm & H); cbv beta in H
+  | H : POk _ _ = POk _ _ |- _ => inversion H; subst; clear H
+  | H : PErr = POk _ _ |- _ => discriminate H
+  | H : PFuel = POk _ _ |- _ => discriminate H
+  | H : (let _ := _ in _) = POk _ _ |- _ => cbv zeta in H
+  | H : (let '(_, _) := ?p in _) = POk _ _ |- _ => destruct p eqn:?
+  | H : (if ?b then _ else _) = POk _ _ |- _ => destruct b eqn:?
+  | H : match xmaybe_expect ?w ?k with _ => _ end = POk _ _ |- _ =>
+      let E := fresh "E" in destruct (xmaybe_expect w k) as [[? ?]|] eqn:E;
+      [apply xmaybe_expect_ext in E; match type of E with ext _ ?w' => have_wf t w' end | clear E]
+  | H : match xmaybe_expect_sp ?w ?k with _ => _ end = POk _ _ |- _ =>
+      let E := fresh "E" in destruct (xmaybe_expect_sp w k) as [[[? ?] ?]|] eqn:E;
+      [eapply xmaybe_expect_sp_ext in E; [destruct E as [E ?]; match type of E with ext _ ?w' => have_wf t w' end | eassumption] | clear E]
+  | H : match xfind_op ?w ?k with _ => _ end = POk _ _ |- _ =>
+      let E := fresh "E" in destruct (xfind_op w k) as [[? ?]|] eqn:E;
+      [apply xfind_op_ext in E; match type of E with ext _ ?w' => have_wf t w' end | clear E]
+  | H : match xnext_linebreak ?w with _ => _ end = POk _ _ |- _ =>
+      let E := fresh "E" in destruct (xnext_linebreak w) as [?|] eqn:E;
+      [apply xnext_linebreak_ext in E; match type of E with ext _ ?w' => have_wf t w' end | clear E]
+  | H : match number_literal ?x with _ => _ end = POk _ _ |- _ => destruct (number_literal x) as [[? ?]|]
+  | H : match string_contents ?x with _ => _ end = POk _ _ |- _ => destruct (string_contents x)
+  | H : xexpect ?w ?k = POk _ ?w' |- _ => apply xexpect_ext in H; have_wf t w'
+  | H : xexpect_sp ?w ?k = POk _ ?w' |- _ => eapply xexpect_sp_ext in H; [destruct H as [H ?]; have_wf t w' | eassumption]
+  | H : xexpect_linebreak ?w = POk _ ?w' |- _ => apply xexpect_linebreak_ext in H; have_wf t w'
+  end.
+
+(* ---------- one-step unfoldings (generated from Model/AsmParser.v by copying the `S f` branches; checked by reflexivity) ---------- *)
+Lemma gparse_expr_S {A} (hook : walker -> pres (span * A)) f (depth : nat) (w : walker) : gparse_expr hook (S f) depth w =
+    let depth := S depth in
+    if Nat.ltb PARSE_DEPTH_MAX depth then PErr else
+    do (c, w) <- gparse_assign hook f depth w;
+    match xmaybe_expect w TQuestion with
+    | Some (w, _) =>
+      do (t, w) <- gparse_expr hook f depth w;
+      match xmaybe_expect w TColon with
+      | Some (w, _) => do (e, w) <- gparse_expr hook f depth w; POk (GTern c t e) w
+      | None => POk (GTern c t (GBlock [])) w
+      end
+    | None => POk c w
+    end.
+Proof. reflexivity. Qed.
+Lemma gparse_assign_S {A} (hook : walker -> pres (span * A)) f (depth : nat) (w : walker) : gparse_assign hook (S f) depth w =
+    do (l, w) <- gparse_levels hook f depth level_ops w;
+    match xmaybe_expect w TEqual with
+    | Some (w, _) => do (r, w) <- gparse_expr hook f depth w; POk (GBin Assign l r) w
+    | None => POk l w
+    end.
+Proof. reflexivity. Qed.
+Lemma gparse_levels_S {A} (hook : walker -> pres (span * A)) f (depth : nat) (lv : list (list (tkind * binop))) (w : walker) : gparse_levels hook (S f) depth lv w =
+    match lv with
+    | [] => gparse_slice hook f depth w
+    | ops :: inner =>
+      do (l, w) <- gparse_levels hook f depth inner w;
+      gbinary_loop hook f depth ops inner l w
+    end.
+Proof. reflexivity. Qed.
+Lemma gbinary_loop_S {A} (hook : walker -> pres (span * A)) f (depth : nat) (ops : list (tkind * binop)) (inner : list (list (tkind * binop))) (l : gexpr A) (w : walker) : gbinary_loop hook (S f) depth ops inner l w =
+    if xat_linebreak w then POk l w else
+    match xfind_op w ops with
+    | Some (w, o) => do (r, w) <- gparse_levels hook f depth inner w; gbinary_loop hook f depth ops inner (GBin o l r) w
+    | None => POk l w
+    end.
+Proof. reflexivity. Qed.
+Lemma gparse_slice_S {A} (hook : walker -> pres (span * A)) f (depth : nat) (w : walker) : gparse_slice hook (S f) depth w =
+    do (e, w) <- gparse_short hook f depth w;
+    if xat_linebreak w then POk e w else
+    match xmaybe_expect w TBracketOpen with
+    | Some (w, _) =>
+      do (l, w) <- gparse_expr hook f depth w;
+      do (_x, w) <- xexpect w TColon;
+      do (r, w) <- gparse_expr hook f depth w;
+      do (_y, w) <- xexpect w TBracketClose;
+      POk (GSlice l r e) w
+    | None => POk e w
+    end.
+Proof. reflexivity. Qed.
+Lemma gparse_short_S {A} (hook : walker -> pres (span * A)) f (depth : nat) (w : walker) : gparse_short hook (S f) depth w =
+    do (e, w) <- gparse_unary hook f depth w;
+    if xat_linebreak w then POk e w else
+    match xmaybe_expect w TGrave with
+    | Some (w, _) => do (s, w) <- gparse_leaf hook f depth w; POk (GShort s e) w
+    | None => POk e w
+    end.
+Proof. reflexivity. Qed.
+Lemma gparse_unary_S {A} (hook : walker -> pres (span * A)) f (depth : nat) (w : walker) : gparse_unary hook (S f) depth w =
+    match xmaybe_expect w TExclamation with
+    | Some (w, _) => if Nat.ltb PARSE_DEPTH_MAX (S depth) then PErr else do (e, w) <- gparse_unary hook f (S depth) w; POk (GUn Not e) w
+    | None =>
+      match xmaybe_expect w TMinus with
+      | Some (w, _) => if Nat.ltb PARSE_DEPTH_MAX (S depth) then PErr else do (e, w) <- gparse_unary hook f (S depth) w; POk (GUn Neg e) w
+      | None => gparse_call hook f depth w
+      end
+    end.
+Proof. reflexivity. Qed.
+Lemma gparse_call_S {A} (hook : walker -> pres (span * A)) f (depth : nat) (w : walker) : gparse_call hook (S f) depth w =
+    do (l, w) <- gparse_leaf hook f depth w;
+    if xat_linebreak w then POk l w else
+    match xmaybe_expect w TParenOpen with
+    | None => POk l w
+    | Some (w, _) =>
+      do (args, w) <- gparse_args hook f depth w [];
+      do (_x, w) <- xexpect w TParenClose;
+      POk (GCall l args) w
+    end.
+Proof. reflexivity. Qed.
+Lemma gparse_args_S {A} (hook : walker -> pres (span * A)) f (depth : nat) (w : walker) (acc : list (gexpr A)) : gparse_args hook (S f) depth w acc =
+    if xnext_useful_is w TParenClose then POk (rev acc) w else
+    do (e, w) <- gparse_expr hook f depth w;
+    if xnext_useful_is w TParenClose then POk (rev (e :: acc)) w else
+    do (_x, w) <- xexpect w TComma;
+    gparse_args hook f depth w (e :: acc).
+Proof. reflexivity. Qed.
+Lemma gparse_leaf_S {A} (hook : walker -> pres (span * A)) f (depth : nat) (w : walker) : gparse_leaf hook (S f) depth w =
+    if xnext_useful_is w TBraceOpen then
+      do (_x, w) <- xexpect w TBraceOpen;
+      do (es, w) <- gparse_block hook f depth w [];
+      do (_y, w) <- xexpect w TBraceClose;
+      POk (GBlock es) w
+    else if xnext_useful_is w TParenOpen then
+      do (_x, w) <- xexpect w TParenOpen;
+      do (e, w) <- gparse_expr hook f depth w;
+      do (_y, w) <- xexpect w TParenClose;
+      POk e w
+    else if xnext_useful_is w TIdentifier || xnext_useful_is w TDot then
+      gparse_var_dots hook f w 0
+    else if xnext_useful_is w TNumber then
+      do (t, w) <- xexpect w TNumber;
+      match number_literal t with Some (v, sz) => POk (GNum v sz) w | None => PErr end
+    else if xnext_useful_is w TString then
+      do (t, w) <- xexpect w TString;
+      match string_contents t with Some _ => POk (GStr t) w | None => PErr end
+    else if xnext_useful_is w TKeywordAsm then
+      do (p, w) <- hook w; POk (GAsm (fst p) (snd p)) w
+    else if xnext_useful_is w TKeywordTrue then do (_x, w) <- xexpect w TKeywordTrue; POk (GBool true) w
+    else if xnext_useful_is w TKeywordFalse then do (_x, w) <- xexpect w TKeywordFalse; POk (GBool false) w
+    else PErr.
+Proof. reflexivity. Qed.
+Lemma gparse_block_S {A} (hook : walker -> pres (span * A)) f (depth : nat) (w : walker) (acc : list (gexpr A)) : gparse_block hook (S f) depth w acc =
+    if xnext_useful_is w TBraceClose then POk (rev acc) w else
+    do (e, w) <- gparse_expr hook f depth w;
+    match xnext_linebreak w with
+    | Some w' => gparse_block hook f depth w' (e :: acc)
+    | None =>
+      if xnext_useful_is w TBraceClose then POk (rev (e :: acc)) w else
+      do (_x, w) <- xexpect w TComma;
+      gparse_block hook f depth w (e :: acc)
+    end.
+Proof. reflexivity. Qed.
+Lemma gparse_var_dots_S {A} (hook : walker -> pres (span * A)) f (w : walker) (level : N) : gparse_var_dots hook (S f) w level =
+    if xat_linebreak w then gparse_var_names hook f w level [] else
+    match xmaybe_expect w TDot with
+    | Some (w, _) => gparse_var_dots hook f w (level + 1)
+    | None => gparse_var_names hook f w level []
+    end.
+Proof. reflexivity. Qed.
+Lemma gparse_var_names_S {A} (hook : walker -> pres (span * A)) f (w : walker) (level : N) (acc : list text) : gparse_var_names hook (S f) w level acc =
+    do (name, w) <- xexpect w TIdentifier;
+    if xat_linebreak w then POk (GVar level (rev (name :: acc))) w else
+    match xmaybe_expect w TDot with
+    | Some (w, _) => gparse_var_names hook f w level (name :: acc)
+    | None => POk (GVar level (rev (name :: acc))) w
+    end.
+Proof. reflexivity. Qed.
+Lemma data_elems_S hook f g (w : walker) (acc : list xexpr) : data_elems hook f (S g) w acc =
+    do (e, w) <- pexpr hook f w;
+    match xmaybe_expect w TComma with
+    | None => POk (rev (e :: acc)) w
+    | Some (w, _) => if xat_linebreak w then POk (rev (e :: acc)) w else data_elems hook f g w (e :: acc)
+    end.
+Proof. reflexivity. Qed.
+Lemma parse_fields_S hook f g (w : walker) (acc : list afield) : parse_fields hook f (S g) w acc =
+    if xnext_useful_is w TBraceClose then POk (rev acc) w else
+    let '(w, hash) := match xmaybe_expect w THash with Some (w', _) => (w', true) | None => (w, false) end in
+    do (nm, w) <- xexpect_sp w TIdentifier;
+    if existsb (fun fl : afield => text_eqb (fst (fst fl)) (snd nm)) acc then PErr else
+    let cont (oe : option xexpr) (w : walker) : pres (list afield) :=
+      let acc' := (snd nm, fst nm, oe) :: acc in
+      match xmaybe_expect w TComma with
+      | Some (w, _) => parse_fields hook f g w acc'
+      | None => match xnext_linebreak w with
+                | Some w => parse_fields hook f g w acc'
+                | None => POk (rev acc') w
+                end
+      end in
+    if hash && negb (xat_linebreak w) then do (e, w) <- pexpr hook f w; cont (Some e) w
+    else match xmaybe_expect w TEqual with
+         | Some (w, _) => do (e, w) <- pexpr hook f w; cont (Some e) w
+         | None => cont None w
+         end.
+Proof. reflexivity. Qed.
+Lemma parse_arules_S hook f g (is_sub : bool) (w : walker) (acc : list (arule xexpr)) : parse_arules hook f (S g) is_sub w acc =
+    if xnext_useful_is w TBraceClose then POk (rev acc) w else
+    do (r, w) <- parse_arule hook f is_sub w;
+    do (_u, w) <- xexpect_linebreak w;
+    parse_arules hook f g is_sub w (r :: acc).
+Proof. reflexivity. Qed.
+Lemma parse_dots_S f (w : walker) (level : N) (sp : ospan) : parse_dots (S f) w level sp =
+    match xmaybe_expect_sp w TDot with
+    | Some (w', s, _) => parse_dots f w' (level + 1) (join sp (Some s))
+    | None => POk (level, sp) w
+    end.
+Proof. reflexivity. Qed.
+Lemma fn_params_S f (w : walker) (acc : list text) : fn_params (S f) w acc =
+    if xover w || xnext_useful_is w TParenClose then POk (rev acc) w else
+    do (p, w) <- xexpect w TIdentifier;
+    let w := match xmaybe_expect w TComma with Some (w', _) => w' | None => w end in
+    fn_params f w (p :: acc).
+Proof. reflexivity. Qed.
+Lemma apattern_S f (is_sub : bool) (w : walker) (sp : ospan) (pat : list apart) : apattern (S f) is_sub w sp pat =
+    if xover w || xnext_useful_is w THeavyArrowRight then POk (sp, rev pat, false) w else
+    let '(k, n) := xtoken w in
+    let txt := take_bytes n (tail w) in
+    let sp := join sp (Some (cur w, cur w + n)) in
+    let w := advance w n in
+    if tkind_eqb k TBraceOpen then
+      match (match pat with [] => is_sub | _ => false end), xmaybe_expect w TBraceClose with
+      | true, Some (w', _) => POk (sp, rev pat, true) w'
+      | _, _ =>
+        do (par, w) <- aparam w;
+        do (c, w) <- xexpect_sp w TBraceClose;
+        apattern f is_sub w (join sp (Some (fst c))) (par :: pat)
+      end
+    else if is_allowed_pattern_token k then apattern f is_sub w sp (rev (lower_aexacts txt) ++ pat)
+    else if tkind_eqb k TWhitespace then apattern f is_sub w sp (AWs :: pat)
+    else PErr.
+Proof. reflexivity. Qed.
+Lemma parse_lines_S f (bd : nat) (nested : bool) (w : walker) (acc : list anode) : parse_lines (S f) bd nested w acc =
+    if xover w then POk (rev acc) w
+    else if nested && xnext_useful_is w TBraceClose then POk (rev acc) w
+    else
+      do (on, w) <- parse_line f bd w;
+      parse_lines f bd nested w (match on with Some n => n :: acc | None => acc end).
+Proof. reflexivity. Qed.
+Lemma parse_line_S f (bd : nat) (w : walker) : parse_line (S f) bd w =
+    if xnext_useful_is w THash then
+      do (h, w) <- xexpect_sp w THash;
+      do (nm, w) <- xexpect_sp w TIdentifier;
+      let header := join_s (fst h) (fst nm) in
+      match classify (map to_lower (snd nm)) with
+      | DIf => do (n, w) <- parse_if f bd header w; POk (Some n) w
+      | k => do (n, w) <- parse_directive (asm_hook f bd) f k header w; POk (Some n) w
+      end
+    else if (xnext_useful_is w TIdentifier && (xnext_useful_is1 w TColon || xnext_useful_is1 w TEqual)) || xnext_useful_is w TDot then
+      do (n, w) <- parse_symbol (asm_hook f bd) f w; POk (Some n) w
+    else
+      match xnext_linebreak w with
+      | Some w' => POk None w'
+      | None => do (n, w) <- parse_instruction w; POk (Some n) w
+      end.
+Proof. reflexivity. Qed.
+Lemma parse_if_S f (bd : nat) (header : span) (w : walker) : parse_if (S f) bd header w =
+    do (c, w) <- gparse_expr (asm_hook f bd) f 0 w;
+    do (t, w) <- parse_braced f bd w;
+    do (e, w) <- parse_else f bd w;
+    POk (NIf header c t e) w.
+Proof. reflexivity. Qed.
+Lemma parse_braced_S f (bd : nat) (w : walker) : parse_braced (S f) bd w =
+    do (_b, w) <- xexpect w TBraceOpen;
+    if Nat.leb PARSE_DEPTH_MAX bd then PErr else           (* "block nesting depth limit reached" *)
+    do (ns, w) <- parse_lines f (S bd) true w [];
+    do (_c, w) <- xexpect w TBraceClose;
+    POk ns w.
+Proof. reflexivity. Qed.
+Lemma parse_else_S f (bd : nat) (w : walker) : parse_else (S f) bd w =
+    if negb (xnext_useful_is w THash) || negb (xnext_useful_is1 w TIdentifier) then POk None w else
+    let name := xnext_useful1_text w in
+    if text_eqb name nm_else then
+      do (_h, w) <- xexpect w THash;
+      do (_n, w) <- xexpect w TIdentifier;
+      do (b, w) <- parse_braced f bd w;
+      POk (Some b) w
+    else if text_eqb name nm_elif then
+      do (h, w) <- xexpect_sp w THash;
+      do (nm, w) <- xexpect_sp w TIdentifier;
+      do (n, w) <- parse_if f bd (join_s (fst h) (fst nm)) w;
+      POk (Some [n]) w
+    else POk None w.
+Proof. reflexivity. Qed.
+Lemma asm_hook_S f (bd : nat) (w : walker) : asm_hook (S f) bd w =
+    do (a, w) <- xexpect_sp w TKeywordAsm;
+    do (_b, w) <- xexpect w TBraceOpen;
+    let n := closing_brace_len (tail w) 0 in
+    let inner := {| tail := take_bytes n (tail w); cur := cur w; lim := cur w + n |} in
+    match parse_lines f bd true inner [] with
+    | POk ns _ =>
+      let w := advance w n in
+      do (c, w) <- xexpect_sp w TBraceClose;
+      POk (join_s (fst a) (fst c), ns) w
+    | PErr => PErr
+    | PFuel => PFuel
+    end.
+Proof. reflexivity. Qed.
+
+(* ---------- D (continued): the invariant of the expression parser ---------- *)
+Section ExprInvProof.
+Context {A : Type}.
+Variable t : text.
+Variable hook : walker -> pres (span * A).
+Variable Pay : span * A -> Prop.
+Hypothesis Hhook : forall w r w', wf t w -> hook w = POk r w' -> ext w w' /\ Pay r.
+
+Ltac efin :=
+  split; [ext_chain|];
+  repeat match goal with
+  | |- PayE _ (GTern _ _ _) => apply payE_tern
+  | |- PayE _ (GBin _ _ _) => apply payE_bin
+  | |- PayE _ (GSlice _ _ _) => apply payE_slice
+  | |- PayE _ (GShort _ _) => apply payE_short
+  | |- PayE _ (GUn _ _) => apply payE_un
+  | |- PayE _ (GCall _ _) => apply payE_call
+  | |- PayE _ (GBlock _) => apply payE_block
+  | |- PayE _ (GAsm (fst ?p) (snd ?p)) => apply payE_asm; destruct p; cbn [fst snd]
+  | |- PayE _ (GAsm _ _) => apply payE_asm
+  | |- PayE _ (GNum _ _) => apply payE_num
+  | |- PayE _ (GBool _) => apply payE_bool
+  | |- PayE _ (GStr _) => apply payE_str
+  | |- PayE _ (GVar _ _) => apply payE_var
+  | |- Forall _ (rev _) => apply Forall_rev
+  | |- Forall _ (_ ++ _) => apply Forall_app; split
+  | |- Forall _ (_ :: _) => constructor
+  | |- Forall _ [] => constructor
+  end; auto.
+
+Ltac eside := solve [auto | apply payE_bin; auto | constructor; auto].
+Ltac use_ih :=
+  match goal with
+  | H : hook ?w0 = POk _ ?w' |- _ => apply Hhook in H; [destruct H; have_wf t w' | assumption]
+  | H : _ = POk _ ?w', IH : forall _ : nat, _ |- _ => apply IH in H; [destruct H; have_wf t w' | eside ..]
+  | H : _ = POk _ ?w', IH : forall _ : walker, _ |- _ => apply IH in H; [destruct H; have_wf t w' | eside ..]
+  end.
+
+Lemma einv_all fuel : einv t hook Pay fuel.
+Proof.
+  induction fuel as [|f IH].
+  - unfold einv, ok_e, ok_l; repeat split; intros; discriminate.
+  - destruct IH as (IHexpr & IHassign & IHlevels & IHbin & IHslice & IHshort & IHunary & IHcall & IHargs & IHleaf & IHblock & IHdots & IHnames).
+    unfold einv, ok_e, ok_l in *. repeat match goal with |- _ /\ _ => split end; intros.
+    + rewrite gparse_expr_S in H0. repeat (first [pstep t | use_ih]); efin.
+    + rewrite gparse_assign_S in H0. repeat (first [pstep t | use_ih]); efin.
+    + rewrite gparse_levels_S in H0. destruct lv; repeat (first [pstep t | use_ih]); efin.
+    + rewrite gbinary_loop_S in H1. repeat (first [pstep t | use_ih]); efin.
+    + rewrite gparse_slice_S in H0. repeat (first [pstep t | use_ih]); efin.
+    + rewrite gparse_short_S in H0. repeat (first [pstep t | use_ih]); efin.
+    + rewrite gparse_unary_S in H0. repeat (first [pstep t | use_ih]); efin.
+    + rewrite gparse_call_S in H0. repeat (first [pstep t | use_ih]); efin.
+    + rewrite gparse_args_S in H1. repeat (first [pstep t | use_ih]); efin.
+    + rewrite gparse_leaf_S in H0. repeat (first [pstep t | use_ih]); efin.
+    + rewrite gparse_block_S in H1. repeat (first [pstep t | use_ih]); efin.
+    + rewrite gparse_var_dots_S in H0. repeat (first [pstep t | use_ih]); efin.
+    + rewrite gparse_var_names_S in H0. repeat (first [pstep t | use_ih]); efin.
+Qed.
+
+Lemma gparse_expr_ok fuel depth w e w' : wf t w -> gparse_expr hook fuel depth w = POk e w' -> ext w w' /\ PayE Pay e.
+Proof. intros Hw H. destruct (einv_all fuel) as (He & _). eapply He; eassumption. Qed.
+End ExprInvProof.
+
+(* ================================================================================================ *)
+(* E. well-formed nodes; the directive parsers                                                       *)
+
+Ltac fall := repeat first [apply Forall_nil | apply Forall_cons].
+
+Section NodeInv.
+Variable t : text.
+
+(* node_ok bd n: every span of the node is valid, and so is everything below it (#if arms, asm blocks inside its
+   expressions); bd is the block nesting depth (Walker::block_nesting_depth) at which the node was parsed: an #if node
+   exists only below the limit, its true arm lives one level deeper, its false arm at the same level (#elif) or one
+   level deeper (#else { .. }) *)
+Inductive node_ok : nat -> anode -> Prop :=
+| node_ok_intro bd n :
+    Forall (vspan t) (node_spans n) ->
+    (forall e asp body, In e (exprs_of n) -> In (asp, body) (gexpr_payloads e) -> vspan t asp /\ Forall (node_ok bd) body) ->
+    (forall sp c tr fl, n = NIf sp c tr fl ->
+        (bd < PARSE_DEPTH_MAX)%nat /\ Forall (node_ok (S bd)) tr /\
+        (forall fa, fl = Some fa -> Forall (node_ok bd) fa \/ Forall (node_ok (S bd)) fa)) ->
+    node_ok bd n.
+
+Section AtDepth.
+Variable bd : nat.
+
+Definition PayN (p : span * list anode) : Prop := vspan t (fst p) /\ Forall (node_ok bd) (snd p).
+Definition PE (e : xexpr) : Prop := PayE PayN e.
+
+Lemma node_ok_payloads n : Forall PE (exprs_of n) ->
+  forall e asp body, In e (exprs_of n) -> In (asp, body) (gexpr_payloads e) -> vspan t asp /\ Forall (node_ok bd) body.
+Proof.
+  intros H e asp body He Hp. rewrite Forall_forall in H. specialize (H e He). unfold PE, PayE in H.
+  rewrite Forall_forall in H. exact (H _ Hp).
+Qed.
+
+Lemma node_ok_simple n : (forall sp c tr fl, n <> NIf sp c tr fl) -> Forall (vspan t) (node_spans n) -> Forall PE (exprs_of n) -> node_ok bd n.
+Proof.
+  intros Hn Hs He. constructor; [exact Hs | apply node_ok_payloads; exact He |].
+  intros sp c tr fl E. exfalso. eapply Hn. exact E.
+Qed.
+
+Lemma node_ok_if sp c tr fl : (bd < PARSE_DEPTH_MAX)%nat -> vspan t sp -> PE c -> Forall (node_ok (S bd)) tr ->
+  (forall fa, fl = Some fa -> Forall (node_ok bd) fa \/ Forall (node_ok (S bd)) fa) -> node_ok bd (NIf sp c tr fl).
+Proof.
+  intros Hb Hs Hc Ht Hf. constructor.
+  - cbn [node_spans]. constructor; [exact Hs | constructor].
+  - apply node_ok_payloads. cbn [exprs_of]. constructor; [exact Hc | constructor].
+  - intros sp' c' tr' fl' E. injection E as <- <- <- <-. split; [exact Hb|]. split; assumption.
+Qed.
+
+Definition part_ok (p : apart) : Prop := Forall (vspan t) (part_spans p).
+Definition field_ok (x : afield) : Prop := vspan t (snd (fst x)) /\ (forall e, snd x = Some e -> PE e).
+Definition rule_ok (r : arule xexpr) : Prop := vospan t (ar_span r) /\ Forall part_ok (ar_parts r) /\ PE (ar_expr r).
+
+Lemma lower_aglued_ok txt : Forall part_ok (lower_aglued txt).
+Proof. induction txt; cbn [lower_aglued]; constructor; [constructor | assumption]. Qed.
+Lemma lower_aexacts_ok txt : Forall part_ok (lower_aexacts txt).
+Proof. destruct txt; cbn [lower_aexacts]; constructor; [constructor | apply lower_aglued_ok]. Qed.
+
+Lemma ospan_list_ok o : vospan t o -> Forall (vspan t) (ospan_list o).
+Proof. destruct o; cbn [ospan_list opt_list vospan]; intros; fall; assumption. Qed.
+
+Lemma extract_field_ok name : forall l o r, Forall field_ok l -> extract_field name l = (o, r) ->
+  (forall e, field_expr o = Some e -> PE e) /\ Forall field_ok r.
+Proof.
+  induction l as [|x l IH]; intros o r Hl; cbn [extract_field].
+  - intros H. injection H as <- <-. split; [cbn [field_expr]; discriminate | constructor].
+  - inversion Hl as [|? ? Hx Hl']; subst.
+    destruct (text_eqb (fst (fst x)) name).
+    + intros H. injection H as <- <-. split; [|exact Hl'].
+      destruct x as [[nm sp] oe]. cbn [field_expr]. intros e ->. apply (proj2 Hx). reflexivity.
+    + destruct (extract_field name l) as [o' r'] eqn:E. intros H. injection H as <- <-.
+      destruct (IH _ _ Hl' eq_refl) as [A B]. split; [exact A | constructor; assumption].
+Qed.
+
+Lemma rules_spans_ok rs : Forall rule_ok rs ->
+  Forall (vspan t) (flat_map (fun r : arule xexpr => ospan_list (ar_span r) ++ flat_map part_spans (ar_parts r)) rs).
+Proof.
+  induction 1 as [|r rs (Hs & Hp & _) _ IH]; cbn [flat_map]; [constructor|].
+  apply Forall_app. split; [|exact IH]. apply Forall_app. split; [apply ospan_list_ok; exact Hs|].
+  clear -Hp. induction Hp as [|p ps Hp _ IH]; cbn [flat_map]; [constructor|]. apply Forall_app. split; assumption.
+Qed.
+
+Lemma rules_exprs_ok rs : Forall rule_ok rs -> Forall PE (map ar_expr rs).
+Proof. induction 1 as [|r rs (_ & _ & He) _ IH]; cbn [map]; constructor; assumption. Qed.
+
+(* --- loops without expressions --- *)
+Lemma parse_dots_ok : forall fuel w level sp r w', wf t w -> vospan t sp -> parse_dots fuel w level sp = POk r w' ->
+  ext w w' /\ vospan t (snd r).
+Proof.
+  induction fuel as [|f IH]; intros w level sp r w' Hw Hs H; [discriminate|].
+  rewrite parse_dots_S in H. repeat pstep t.
+  - apply IH in H; [|assumption | apply vospan_join; [assumption | cbn [vospan]; assumption]].
+    destruct H. split; [ext_chain | assumption].
+  - split; [ext_chain | assumption].
+Qed.
+
+Lemma fn_params_ok : forall fuel w acc r w', wf t w -> fn_params fuel w acc = POk r w' -> ext w w'.
+Proof.
+  induction fuel as [|f IH]; intros w acc r w' Hw H; [discriminate|].
+  rewrite fn_params_S in H. repeat pstep t; [apply ext_refl|].
+  destruct (xmaybe_expect w0 TComma) as [[w9 t9]|] eqn:E9.
+  - apply xmaybe_expect_ext in E9. have_wf t w9. apply IH in H; [ext_chain|assumption].
+  - apply IH in H; [ext_chain|assumption].
+Qed.
+
+Lemma aparam_ok w p w' : wf t w -> aparam w = POk p w' -> ext w w' /\ part_ok p.
+Proof.
+  intros Hw H. unfold aparam in H. repeat pstep t; (split; [ext_chain|]); unfold part_ok; cbn [part_spans ospan_list opt_list];
+    fall; auto.
+Qed.
+
+Lemma apattern_ok : forall fuel is_sub w sp pat r w', wf t w -> vospan t sp -> Forall part_ok pat ->
+  apattern fuel is_sub w sp pat = POk r w' -> ext w w' /\ vospan t (fst (fst r)) /\ Forall part_ok (snd (fst r)).
+Proof.
+  induction fuel as [|f IH]; intros is_sub w sp pat r w' Hw Hs Hp H; [discriminate|].
+  rewrite apattern_S in H.
+  destruct (xover w || xnext_useful_is w THeavyArrowRight).
+  { injection H as <- <-. cbn [fst snd]. split; [apply ext_refl|]. split; [assumption | apply Forall_rev; assumption]. }
+  destruct (xtoken w) as [k n] eqn:Et.
+  pose proof (tok_span t w k n Hw Et) as Hts. apply xtoken_ext in Et. destruct Et as [Et _].
+  assert (wf t (advance w n)) as Hw1 by (eapply wf_ext; eassumption).
+  assert (vospan t (join sp (Some (cur w, cur w + n)))) as Hs1 by (apply vospan_join; [assumption | exact Hts]).
+  cbv zeta in H.
+  destruct (tkind_eqb k TBraceOpen).
+  - assert (Hgen : (do (par, w0) <- aparam (advance w n); do (c, w1) <- xexpect_sp w0 TBraceClose;
+                     apattern f is_sub w1 (join (join sp (Some (cur w, cur w + n))) (Some (fst c))) (par :: pat)) = POk r w' ->
+                    ext w w' /\ vospan t (fst (fst r)) /\ Forall part_ok (snd (fst r))).
+    { clear H. intros G. repeat pstep t. apply aparam_ok in Hm; [|assumption]. destruct Hm as [Hm Hpar]. have_wf t w0.
+      repeat pstep t. apply IH in G; [| assumption | apply vospan_join; [assumption | cbn [vospan]; assumption] | constructor; assumption].
+      destruct G as (G1 & G2). split; [ext_chain | assumption]. }
+    destruct (match pat with [] => is_sub | _ :: _ => false end).
+    + destruct (xmaybe_expect (advance w n) TBraceClose) as [[w2 t2]|] eqn:E; [|apply Hgen; exact H].
+      injection H as <- <-. cbn [fst snd]. apply xmaybe_expect_ext in E.
+      split; [ext_chain|]. split; [assumption | apply Forall_rev; assumption].
+    + apply Hgen. destruct (xmaybe_expect (advance w n) TBraceClose) as [[w2 t2]|]; exact H.
+  - destruct (is_allowed_pattern_token k).
+    + apply IH in H; [| assumption | assumption | apply Forall_app; split; [apply Forall_rev; apply lower_aexacts_ok | assumption]].
+      destruct H as (G1 & G2). split; [ext_chain | assumption].
+    + destruct (tkind_eqb k TWhitespace); [|discriminate].
+      apply IH in H; [| assumption | assumption | constructor; [constructor | assumption]].
+      destruct H as (G1 & G2). split; [ext_chain | assumption].
+Qed.
+
+(* --- directives with expressions, under the hypothesis on the asm hook --- *)
+Section Dir.
+Variable hook : walker -> pres (span * list anode).
+Variable f : nat.
+Hypothesis Hhook : forall w r w', wf t w -> hook w = POk r w' -> ext w w' /\ PayN r.
+
+Lemma pexpr_ok w e w' : wf t w -> pexpr hook f w = POk e w' -> ext w w' /\ PE e.
+Proof. intros Hw H. unfold pexpr in H. eapply gparse_expr_ok; eassumption. Qed.
+
+Ltac use_pexpr :=
+  match goal with
+  | H : pexpr hook f ?w = POk _ ?w' |- _ => apply pexpr_ok in H; [destruct H; have_wf t w' | assumption]
+  end.
+
+Ltac simple_node :=
+  split; [ext_chain|];
+  apply node_ok_simple;
+  [ intros; discriminate
+  | cbn [node_spans ospan_list opt_list]; fall; auto using vspan_join_s
+  | cbn [exprs_of]; fall; auto ].
+
+Lemma parse_symbol_ok w n w' : wf t w -> parse_symbol hook f w = POk n w' -> ext w w' /\ node_ok bd n.
+Proof.
+  intros Hw H. unfold parse_symbol in H. repeat pstep t.
+  apply parse_dots_ok in Hm; [|assumption | exact I]. destruct Hm as [Hm Hsp]. have_wf t w0.
+  repeat (first [pstep t | use_pexpr]).
+  - split; [ext_chain|]. apply node_ok_simple; [intros; discriminate | | cbn [exprs_of]; fall; auto].
+    cbn [node_spans]. apply ospan_list_ok. apply vospan_join; [assumption | cbn [vospan]; assumption].
+  - split; [ext_chain|]. apply node_ok_simple; [intros; discriminate | | constructor].
+    cbn [node_spans]. apply ospan_list_ok. repeat apply vospan_join; try assumption; cbn [vospan]; assumption.
+Qed.
+
+Lemma parse_const_ok w n w' : wf t w -> parse_const hook f w = POk n w' -> ext w w' /\ node_ok bd n.
+Proof.
+  intros Hw H. unfold parse_const in H. repeat pstep t.
+  all: apply parse_dots_ok in Hm0; [|assumption | exact I]; destruct Hm0 as [Hm0 Hsp]; have_wf t w1;
+       repeat (first [pstep t | use_pexpr]);
+       (split; [ext_chain|]); (apply node_ok_simple; [intros; discriminate | | cbn [exprs_of]; fall; auto]);
+       cbn [node_spans]; apply ospan_list_ok; apply vospan_join; [assumption | cbn [vospan]; assumption].
+Qed.
+
+Lemma data_elems_ok : forall fuel w acc r w', wf t w -> Forall PE acc -> data_elems hook f fuel w acc = POk r w' ->
+  ext w w' /\ Forall PE r.
+Proof.
+  induction fuel as [|g IH]; intros w acc r w' Hw Ha H; [discriminate|].
+  rewrite data_elems_S in H. repeat (first [pstep t | use_pexpr]).
+  - split; [ext_chain|]. apply Forall_app. split; [apply Forall_rev; assumption | fall; assumption].
+  - apply IH in H; [| assumption | constructor; assumption]. destruct H. split; [ext_chain | assumption].
+  - split; [ext_chain|]. apply Forall_app. split; [apply Forall_rev; assumption | fall; assumption].
+Qed.
+
+Lemma parse_fields_ok : forall fuel w acc r w', wf t w -> Forall field_ok acc -> parse_fields hook f fuel w acc = POk r w' ->
+  ext w w' /\ Forall field_ok r.
+Proof.
+  induction fuel as [|g IH]; intros w acc r w' Hw Ha H; [discriminate|].
+  rewrite parse_fields_S in H.
+  destruct (xnext_useful_is w TBraceClose).
+  { injection H as <- <-. split; [apply ext_refl | apply Forall_rev; assumption]. }
+  assert (exists w1 hash, (match xmaybe_expect w THash with Some (w', _) => (w', true) | None => (w, false) end) = (w1, hash) /\ ext w w1) as (w1 & hash & Eq & E1).
+  { destruct (xmaybe_expect w THash) as [[w9 t9]|] eqn:E9; eexists; eexists; (split; [reflexivity|]).
+    - eapply xmaybe_expect_ext; eassumption.
+    - apply ext_refl. }
+  rewrite Eq in H. clear Eq. have_wf t w1. repeat (first [pstep t | use_pexpr]).
+  all: assert (Hfo : forall oe, (forall e, oe = Some e -> PE e) -> field_ok (snd a, fst a, oe))
+         by (intros oe Hoe; split; cbn [fst snd]; assumption).
+  all: first
+    [ apply IH in H;
+      [ destruct H; split; [ext_chain | assumption]
+      | assumption
+      | constructor; [apply Hfo; intros ? Eoe; first [discriminate Eoe | injection Eoe as <-; assumption] | assumption] ]
+    | split; [ext_chain|]; apply Forall_app; split; [apply Forall_rev; assumption|];
+      constructor; [apply Hfo; intros ? Eoe; first [discriminate Eoe | injection Eoe as <-; assumption] | constructor] ].
+Qed.
+
+Lemma parse_bankdef_ok header w n w' : vspan t header -> wf t w -> parse_bankdef hook f header w = POk n w' -> ext w w' /\ node_ok bd n.
+Proof.
+  intros Hh Hw H. unfold parse_bankdef in H.
+  apply bind_ok' in H. destruct H as (nm & wa & Hma & H). cbv beta in H.
+  apply bind_ok' in H. destruct H as (b0 & wb & Hmb & H). cbv beta in H.
+  apply bind_ok' in H. destruct H as (a1 & w1 & Hm1 & H). cbv beta in H.
+  revert H. repeat pstep t.
+  apply parse_fields_ok in Hm1; [|assumption|constructor]. destruct Hm1 as [Hm1 Hfl]. have_wf t w1.
+  destruct (extract_field nm_bits a1) as [o1 l1] eqn:X1. destruct (extract_field_ok _ _ _ _ Hfl X1) as [P1 L1].
+  destruct (extract_field nm_labelalign l1) as [o2 l2] eqn:X2. destruct (extract_field_ok _ _ _ _ L1 X2) as [P2 L2].
+  destruct (extract_field nm_addr l2) as [o3 l3] eqn:X3. destruct (extract_field_ok _ _ _ _ L2 X3) as [P3 L3].
+  destruct (extract_field nm_addr_end l3) as [o4 l4] eqn:X4. destruct (extract_field_ok _ _ _ _ L3 X4) as [P4 L4].
+  destruct (extract_field nm_size l4) as [o5 l5] eqn:X5. destruct (extract_field_ok _ _ _ _ L4 X5) as [P5 L5].
+  destruct (extract_field nm_outp l5) as [o6 l6] eqn:X6. destruct (extract_field_ok _ _ _ _ L5 X6) as [P6 L6].
+  destruct (extract_field nm_fill l6) as [o7 l7] eqn:X7.
+  intros HH. destruct l7; [|discriminate]. repeat pstep t.
+  split; [ext_chain|]. apply node_ok_simple; [intros; discriminate | cbn [node_spans]; fall; auto |].
+  cbn [exprs_of bf_bits bf_labelalign bf_addr bf_addr_end bf_size bf_outp].
+  repeat (apply Forall_app; split);
+    match goal with |- Forall PE (opt_list (field_expr ?o)) => destruct (field_expr o) eqn:?; cbn [opt_list]; fall; auto end.
+Qed.
+
+Lemma parse_fn_ok header w n w' : vspan t header -> wf t w -> parse_fn hook f header w = POk n w' -> ext w w' /\ node_ok bd n.
+Proof.
+  intros Hh Hw H. unfold parse_fn in H. repeat pstep t.
+  apply fn_params_ok in Hm1; [|assumption]. have_wf t w2.
+  repeat (first [pstep t | use_pexpr]). simple_node.
+Qed.
+
+Lemma parse_arule_ok is_sub w r w' : wf t w -> parse_arule hook f is_sub w = POk r w' -> ext w w' /\ rule_ok r.
+Proof.
+  intros Hw H. unfold parse_arule in H. cbv zeta in H.
+  pose proof (xskip_ext w) as E0. have_wf t (xskip w).
+  apply bind_ok' in H. destruct H as (p & w0 & Hm & H). cbv beta in H.
+  apply apattern_ok in Hm; [|assumption | exact I | constructor]. destruct Hm as (Hm & Hsp & Hparts). have_wf t w0.
+  destruct p as [[sp parts] es]. cbn [fst snd] in *. cbv beta iota in H. repeat pstep t.
+  all: repeat (first [pstep t | use_pexpr]); (split; [ext_chain|]); unfold rule_ok; cbn [ar_span ar_parts ar_expr]; auto.
+Qed.
+
+Lemma parse_arules_ok : forall fuel is_sub w acc r w', wf t w -> Forall rule_ok acc -> parse_arules hook f fuel is_sub w acc = POk r w' ->
+  ext w w' /\ Forall rule_ok r.
+Proof.
+  induction fuel as [|g IH]; intros is_sub w acc r w' Hw Ha H; [discriminate|].
+  rewrite parse_arules_S in H. repeat pstep t.
+  - split; [apply ext_refl | apply Forall_rev; assumption].
+  - apply parse_arule_ok in Hm; [|assumption]. destruct Hm as [Hm Hr]. have_wf t w0. repeat pstep t.
+    apply IH in H; [| assumption | constructor; assumption]. destruct H. split; [ext_chain | assumption].
+Qed.
+
+Lemma parse_ruledef_ok is_sub header w n w' : vspan t header -> wf t w -> parse_ruledef hook f is_sub header w = POk n w' -> ext w w' /\ node_ok bd n.
+Proof.
+  intros Hh Hw H. unfold parse_ruledef in H.
+  assert (exists w1 name nsp, (match xmaybe_expect_sp w TIdentifier with Some (w', s, t0) => (w', Some t0, s) | None => (w, None, header) end) = (w1, name, nsp)
+          /\ ext w w1 /\ vspan t nsp) as (w1 & name & nsp & Eq & E1 & Hn).
+  { destruct (xmaybe_expect_sp w TIdentifier) as [[[w9 s9] t9]|] eqn:E9; eexists; eexists; eexists; (split; [reflexivity|]).
+    - eapply xmaybe_expect_sp_ext; eassumption.
+    - split; [apply ext_refl | assumption]. }
+  rewrite Eq in H. clear Eq. have_wf t w1. repeat pstep t.
+  apply parse_arules_ok in Hm0; [|assumption|constructor]. destruct Hm0 as [Hm0 Hrs]. have_wf t w2. repeat pstep t.
+  split; [ext_chain|]. apply node_ok_simple; [intros; discriminate | |].
+  - cbn [node_spans]. constructor; [assumption|]. constructor; [assumption|]. apply rules_spans_ok. assumption.
+  - cbn [exprs_of]. apply rules_exprs_ok. assumption.
+Qed.
+
+Lemma parse_directive_ok k header w n w' : vspan t header -> wf t w -> parse_directive hook f k header w = POk n w' -> ext w w' /\ node_ok bd n.
+Proof.
+  intros Hh Hw H. destruct k; cbn [parse_directive] in H; try discriminate.
+  - (* DData *) repeat pstep t. apply data_elems_ok in Hm; [|assumption|constructor]. destruct Hm. have_wf t w0. repeat pstep t.
+    split; [ext_chain|]. apply node_ok_simple; [intros; discriminate | cbn [node_spans]; fall; auto | cbn [exprs_of]; assumption].
+  - (* DAddr *) unfold expr_directive in H; repeat (first [pstep t | use_pexpr]); simple_node.
+  - (* DAlign *) unfold expr_directive in H; repeat (first [pstep t | use_pexpr]); simple_node.
+  - (* DBank *) repeat pstep t. simple_node.
+  - (* DBankdef *) eapply parse_bankdef_ok; eassumption.
+  - (* DConst *) eapply parse_const_ok; eassumption.
+  - (* DFn *) eapply parse_fn_ok; eassumption.
+  - (* DInclude *) repeat pstep t. simple_node.
+  - (* DOnce *) repeat pstep t. simple_node.
+  - (* DRes *) unfold expr_directive in H; repeat (first [pstep t | use_pexpr]); simple_node.
+  - (* DRuledef *) eapply parse_ruledef_ok; eassumption.
+  - (* DSubruledef *) eapply parse_ruledef_ok; eassumption.
+  - (* DAssert *) unfold expr_directive in H; repeat (first [pstep t | use_pexpr]); simple_node.
+Qed.
+End Dir.
+End AtDepth.
+End NodeInv.
+
+(* ================================================================================================ *)
+(* F. instructions, and the recursive knot (lines, #if blocks, asm blocks)                           *)
+
+Lemma until_lb_cons ch r c skip e nest : until_lb (ch :: r) c skip e nest =
+    if skip =? 0 then
+      let '(k, n) := decide_next_token (ch :: r) in
+      if tkind_eqb k TLineBreak && Nat.eqb nest 0 then (e, ch :: r, c) else
+      match (if tkind_eqb k TBraceOpen then Some (S nest)
+             else if tkind_eqb k TBraceClose then match nest with O => None | S m => Some m end
+             else Some nest) with
+      | None => (e, ch :: r, c)
+      | Some nest' => until_lb r (c + utf8_len ch) (n - utf8_len ch) (if is_ignorable k then e else c + n) nest'
+      end
+    else until_lb r (c + utf8_len ch) (skip - utf8_len ch) e nest.
+Proof. reflexivity. Qed.
+
+Lemma until_lb_ok : forall tl c skip e nest e' t' c', skip_ok tl skip -> until_lb tl c skip e nest = (e', t', c') ->
+  (exists mid, tl = mid ++ t' /\ c' = c + bytes_len mid) /\ (e' = e \/ exists m1 m2, tl = m1 ++ m2 /\ e' = c + bytes_len m1).
+Proof.
+  induction tl as [|ch r IH]; intros c skip e nest e' t' c' Hs.
+  - cbn [until_lb]. intros H. assert (e' = e) by congruence. assert (t' = []) by congruence. assert (c' = c) by congruence. subst.
+    split; [exists []; split; [reflexivity | cbn [bytes_len]; lia] | left; reflexivity].
+  - rewrite until_lb_cons.
+    assert (Hstop : (e, ch :: r, c) = (e', t', c') ->
+       (exists mid, ch :: r = mid ++ t' /\ c' = c + bytes_len mid) /\ (e' = e \/ exists m1 m2, ch :: r = m1 ++ m2 /\ e' = c + bytes_len m1)).
+    { intros H. assert (e' = e) by congruence. assert (t' = ch :: r) by congruence. assert (c' = c) by congruence. subst.
+      split; [exists []; split; [reflexivity | cbn [bytes_len]; lia] | left; reflexivity]. }
+    assert (Hrec : forall skip' e1 nest', skip_ok r skip' -> (e1 = e \/ exists m1 m2, ch :: r = m1 ++ m2 /\ e1 = c + bytes_len m1) ->
+       until_lb r (c + utf8_len ch) skip' e1 nest' = (e', t', c') ->
+       (exists mid, ch :: r = mid ++ t' /\ c' = c + bytes_len mid) /\ (e' = e \/ exists m1 m2, ch :: r = m1 ++ m2 /\ e' = c + bytes_len m1)).
+    { intros skip' e1 nest' Hs' He1 H. apply IH in H; [|exact Hs']. destruct H as ((mid & -> & ->) & He').
+      split; [exists (ch :: mid); split; [reflexivity | cbn [bytes_len]; lia]|].
+      destruct He' as [->|(m1 & m2 & -> & ->)]; [exact He1|].
+      right. exists (ch :: m1), m2. split; [reflexivity | cbn [bytes_len]; lia]. }
+    destruct (skip =? 0) eqn:Ez.
+    + destruct (decide_next_token (ch :: r)) as [k n] eqn:Et.
+      destruct (tkind_eqb k TLineBreak && Nat.eqb nest 0); [exact Hstop|].
+      assert (Hen : (if is_ignorable k then e else c + n) = e \/ exists m1 m2, ch :: r = m1 ++ m2 /\ (if is_ignorable k then e else c + n) = c + bytes_len m1).
+      { destruct (is_ignorable k); [left; reflexivity|]. right.
+        destruct (decide_next_token_prefix (ch :: r) k n ltac:(discriminate) Et) as (p & s & E & -> & _). exists p, s. split; [exact E | reflexivity]. }
+      destruct (tkind_eqb k TBraceOpen); [apply Hrec; [eapply skip_ok_tok; eassumption | exact Hen]|].
+      destruct (tkind_eqb k TBraceClose); [destruct nest; [exact Hstop|]|]; (apply Hrec; [eapply skip_ok_tok; eassumption | exact Hen]).
+    + apply Hrec; [eapply skip_ok_step; eassumption | left; reflexivity].
+Qed.
+
+Lemma closing_brace_prefix : forall tl nest, exists p s, tl = p ++ s /\ closing_brace_len tl nest = bytes_len p.
+Proof.
+  induction tl as [|c r IH]; intros nest; [exists [], []; split; reflexivity|].
+  cbn [closing_brace_len].
+  assert (Hk : forall m, exists p s, c :: r = p ++ s /\ utf8_len c + closing_brace_len r m = bytes_len p).
+  { intros m. destruct (IH m) as (p & s & -> & ->). exists (c :: p), s. split; reflexivity. }
+  destruct (c =? 123); [apply Hk|]. destruct (c =? 125); [|apply Hk].
+  destruct nest; [exists [], (c :: r); split; reflexivity | apply Hk].
+Qed.
+
+Section Knot.
+Variable t : text.
+
+Lemma parse_instruction_ok bd w n w' : wf t w -> parse_instruction w = POk n w' -> ext w w' /\ node_ok t bd n.
+Proof.
+  intros Hw H. unfold parse_instruction in H. cbv zeta in H.
+  pose proof (xskip_ext w) as E0. have_wf t (xskip w). set (w1 := xskip w) in *.
+  destruct (until_lb (tail w1) (cur w1) 0 (cur w1) 0) as [[e t'] c'] eqn:U.
+  apply until_lb_ok in U; [|apply skip_ok_0]. destruct U as ((mid & T & C) & He).
+  assert (ext w1 {| tail := t'; cur := c'; lim := lim w1 |}) as E1 by (eapply mk_ext; eassumption).
+  have_wf t {| tail := t'; cur := c'; lim := lim w1 |}.
+  repeat pstep t. split; [ext_chain|].
+  apply node_ok_simple; [intros; discriminate | | constructor].
+  cbn [node_spans]. fall.
+  destruct He as [->|(m1 & m2 & T1 & ->)].
+  - apply vspan_intro; [apply wf_boundary; assumption | apply wf_boundary; assumption | lia].
+  - apply vspan_intro; [apply wf_boundary; assumption | eapply wf_boundary_in; eassumption | lia].
+Qed.
+
+Definition kinv (fuel : nat) : Prop :=
+  (forall bd nested w acc r w', wf t w -> Forall (node_ok t bd) acc -> parse_lines fuel bd nested w acc = POk r w' -> ext w w' /\ Forall (node_ok t bd) r) /\
+  (forall bd w r w', wf t w -> parse_line fuel bd w = POk r w' -> ext w w' /\ (forall n, r = Some n -> node_ok t bd n)) /\
+  (forall bd header w r w', vspan t header -> wf t w -> parse_if fuel bd header w = POk r w' -> ext w w' /\ node_ok t bd r) /\
+  (forall bd w r w', wf t w -> parse_braced fuel bd w = POk r w' -> ext w w' /\ (bd < PARSE_DEPTH_MAX)%nat /\ Forall (node_ok t (S bd)) r) /\
+  (forall bd w r w', wf t w -> parse_else fuel bd w = POk r w' ->
+      ext w w' /\ (forall fa, r = Some fa -> Forall (node_ok t bd) fa \/ Forall (node_ok t (S bd)) fa)) /\
+  (forall bd w r w', wf t w -> asm_hook fuel bd w = POk r w' -> ext w w' /\ PayN t bd r).
+
+Lemma kinv_all fuel : kinv fuel.
+Proof.
+  induction fuel as [|f IH].
+  - unfold kinv. repeat split; intros; discriminate.
+  - destruct IH as (IHlines & IHline & IHif & IHbraced & IHelse & IHhook).
+    assert (Hhk : forall bd w r w', wf t w -> asm_hook f bd w = POk r w' -> ext w w' /\ PayN t bd r) by exact IHhook.
+    unfold kinv. repeat match goal with |- _ /\ _ => split end.
+    + (* parse_lines *)
+      intros bd nested w acc r w' Hw Ha H. rewrite parse_lines_S in H. repeat pstep t.
+      all: try (split; [apply ext_refl | apply Forall_rev; assumption]).
+      all: apply IHline in Hm; [|assumption]; destruct Hm as [Hm Hn]; have_wf t w0;
+           (apply IHlines in H; [destruct H; split; [ext_chain | assumption] | assumption |]);
+           (destruct a; [constructor; [apply Hn; reflexivity | assumption] | assumption]).
+    + (* parse_line *)
+      intros bd w r w' Hw H. rewrite parse_line_S in H.
+      destruct (xnext_useful_is w THash).
+      * repeat pstep t.
+        assert (vspan t (join_s (fst a) (fst a0))) as Hh by (apply vspan_join_s; assumption).
+        destruct (classify (map to_lower (snd a0))) eqn:K;
+          try (repeat pstep t; eapply parse_directive_ok in Hm1; [| apply Hhk | exact Hh | assumption];
+               destruct Hm1; split; [ext_chain | intros n0 E9; injection E9 as <-; assumption]).
+        repeat pstep t. apply IHif in Hm1; [| exact Hh | assumption].
+        destruct Hm1; split; [ext_chain | intros n0 E9; injection E9 as <-; assumption].
+      * destruct ((xnext_useful_is w TIdentifier && (xnext_useful_is1 w TColon || xnext_useful_is1 w TEqual)) || xnext_useful_is w TDot).
+        -- repeat pstep t. eapply parse_symbol_ok in Hm; [| apply Hhk | assumption].
+           destruct Hm; split; [ext_chain | intros n0 E9; injection E9 as <-; assumption].
+        -- repeat pstep t.
+           ++ split; [ext_chain | intros n0 E9; discriminate].
+           ++ apply (parse_instruction_ok bd) in Hm; [|assumption].
+              destruct Hm; split; [ext_chain | intros n0 E9; injection E9 as <-; assumption].
+    + (* parse_if *)
+      intros bd header w r w' Hh Hw H. rewrite parse_if_S in H. repeat pstep t.
+      eapply gparse_expr_ok in Hm; [| apply Hhk | assumption]. destruct Hm as [Hm Hc]. have_wf t w0.
+      apply IHbraced in Hm0; [|assumption]. destruct Hm0 as (Hm0 & Hb & Ht). have_wf t w1.
+      apply IHelse in Hm1; [|assumption]. destruct Hm1 as [Hm1 He].
+      split; [ext_chain|]. apply node_ok_if; assumption.
+    + (* parse_braced *)
+      intros bd w r w' Hw H. rewrite parse_braced_S in H. repeat pstep t.
+      apply IHlines in Hm0; [|assumption|constructor]. destruct Hm0 as [Hm0 Hns]. have_wf t w1.
+      repeat pstep t. split; [ext_chain|]. split; [|assumption].
+      match goal with Hx : (PARSE_DEPTH_MAX <=? bd)%nat = false |- _ => apply Nat.leb_gt in Hx; exact Hx end.
+    + (* parse_else *)
+      intros bd w r w' Hw H. rewrite parse_else_S in H. repeat pstep t.
+      * split; [apply ext_refl | intros fa E9; discriminate].
+      * apply IHbraced in Hm1; [|assumption]. destruct Hm1 as (? & ? & ?). split; [ext_chain | intros fa E9; injection E9 as <-; right; assumption].
+      * apply IHif in Hm1; [| apply vspan_join_s; assumption | assumption]. destruct Hm1.
+        split; [ext_chain | intros fa E9; injection E9 as <-; left; constructor; [assumption | constructor]].
+      * split; [apply ext_refl | intros fa E9; discriminate].
+    + (* asm_hook *)
+      intros bd w r w' Hw H. rewrite asm_hook_S in H. repeat pstep t.
+      destruct (closing_brace_prefix (tail w1) 0) as (p & s & Tp & Np). rewrite Np in H.
+      set (inner := {| tail := take_bytes (bytes_len p) (tail w1); cur := cur w1; lim := cur w1 + bytes_len p |}) in H.
+      assert (wf t inner) as Hin.
+      { match goal with Hx : wf t w1 |- _ => destruct Hx as (pre & post & Ht & Hc & Hl) end. exists pre, (s ++ post). unfold inner. cbn [tail cur lim].
+        rewrite Tp, take_blen_app. repeat split; [rewrite Ht, Tp, <- !app_assoc; reflexivity | exact Hc]. }
+      destruct (parse_lines f bd true inner []) as [ns wi| |] eqn:PL; try discriminate.
+      apply IHlines in PL; [|assumption|constructor]. destruct PL as [_ Hns].
+      pose proof (advance_ext w1 p s Tp) as Ea. have_wf t (advance w1 (bytes_len p)).
+      repeat pstep t. split; [ext_chain|]. split; cbn [fst snd]; [apply vspan_join_s; assumption | assumption].
+Qed.
+
+Theorem parse_file_ok nodes w : parse_file t = POk nodes w -> Forall (node_ok t 0) nodes.
+Proof.
+  intros H. unfold parse_file in H. destruct (kinv_all (file_fuel t)) as (Hl & _).
+  apply Hl in H; [tauto | apply wf_start | constructor].
+Qed.
+
+(* node_ok goes down to every sub-node *)
+Lemma node_ok_sub m n : sub m n -> forall bd, node_ok t bd n -> exists bd', node_ok t bd' m.
+Proof.
+  induction 1 as [n | m n sp c tr fl Hin Hs IH | m n sp c tr fl Hin Hs IH | m n p e asp body He Hp Hin Hs IH]; intros bd Hok.
+  - exists bd. exact Hok.
+  - inversion Hok as [? ? _ _ Hif]; subst. destruct (Hif _ _ _ _ eq_refl) as (_ & Ht & _).
+    rewrite Forall_forall in Ht. eapply IH. apply Ht. exact Hin.
+  - inversion Hok as [? ? _ _ Hif]; subst. destruct (Hif _ _ _ _ eq_refl) as (_ & _ & Hf).
+    destruct (Hf _ eq_refl) as [Hf'|Hf']; rewrite Forall_forall in Hf'; eapply IH; apply Hf'; exact Hin.
+  - inversion Hok as [? ? _ Hpay _]; subst. destruct (Hpay _ _ _ He Hp) as [_ Hb].
+    rewrite Forall_forall in Hb. eapply IH. apply Hb. exact Hin.
+Qed.
+End Knot.
+
+(* ================================================================================================ *)
+(* G. the theorems                                                                                   *)
+
+(* every span of every node, at any nesting depth (#if arms, asm blocks inside expressions), is valid *)
+Theorem C13_spans_valid : forall t nodes w n m sp,
+  parse_file t = POk nodes w -> In n nodes -> sub m n -> In sp (node_spans m) ->
+  fst sp <= snd sp /\ snd sp <= bytes_len t /\ on_boundary t (fst sp) /\ on_boundary t (snd sp).
+Proof.
+  intros t nodes w n m sp H Hn Hs Hsp. apply parse_file_ok in H. rewrite Forall_forall in H.
+  destruct (node_ok_sub t m n Hs 0%nat (H n Hn)) as (bd' & Hm). inversion Hm as [? ? Hspans _ _]; subst.
+  rewrite Forall_forall in Hspans. exact (Hspans sp Hsp).
+Qed.
+
+(* AstAny::span() of every node *)
+Corollary C13_node_span_valid : forall t nodes w n m sp,
+  parse_file t = POk nodes w -> In n nodes -> sub m n -> node_span m = Some sp -> vspan t sp.
+Proof.
+  intros t nodes w n m sp H Hn Hs E. eapply C13_spans_valid; try eassumption.
+  destruct m; cbn [node_span] in E; cbn [node_spans ospan_list opt_list]; try (injection E as <-; left; reflexivity);
+    destruct sp0; try discriminate; injection E as <-; left; reflexivity.
+Qed.
+
+(* the span of every asm block inside an expression of any node *)
+Theorem C13_asm_spans_valid : forall t nodes w n m e asp body,
+  parse_file t = POk nodes w -> In n nodes -> sub m n -> In e (exprs_of m) -> In (asp, body) (gexpr_payloads e) -> vspan t asp.
+Proof.
+  intros t nodes w n m e asp body H Hn Hs He Hp. apply parse_file_ok in H. rewrite Forall_forall in H.
+  destruct (node_ok_sub t m n Hs 0%nat (H n Hn)) as (bd' & Hm). inversion Hm as [? ? _ Hpay _]; subst.
+  exact (proj1 (Hpay _ _ _ He Hp)).
+Qed.
+
+(* ================================================================================================ *)
+(* H. C19: the block-nesting counter                                                                 *)
+
+(* the guard transcribed from directive_if.rs::parse_braced_block: at or above the limit a braced block is refused *)
+Theorem C19_block_guard : forall fuel bd w, (PARSE_DEPTH_MAX <= bd)%nat ->
+  parse_braced fuel bd w = PErr \/ parse_braced fuel bd w = PFuel.
+Proof.
+  intros fuel bd w Hb. destruct fuel as [|f]; [right; reflexivity|].
+  rewrite parse_braced_S. destruct (xexpect w TBraceOpen) as [x w1| |]; cbn [bind]; [|left; reflexivity|right; reflexivity].
+  apply Nat.leb_le in Hb. rewrite Hb. left. reflexivity.
+Qed.
+
+Lemma depth_bound t : forall k l, nest_ge k l -> forall bd, Forall (node_ok t bd) l -> k = 0%nat \/ (bd + k <= PARSE_DEPTH_MAX)%nat.
+Proof.
+  induction 1 as [l | k sp c tr fl l Hin Hn IH | k sp c tr fa l Hin Hn IH | k n e asp body l Hin He Hp Hn IH]; intros bd Hl.
+  - left. reflexivity.
+  - right. rewrite Forall_forall in Hl. specialize (Hl _ Hin). inversion Hl as [? ? _ _ Hif]; subst.
+    destruct (Hif _ _ _ _ eq_refl) as (Hb & Ht & _). destruct (IH _ Ht) as [->|Hk]; lia.
+  - rewrite Forall_forall in Hl. specialize (Hl _ Hin). inversion Hl as [? ? _ _ Hif]; subst.
+    destruct (Hif _ _ _ _ eq_refl) as (Hb & _ & Hf). destruct (Hf _ eq_refl) as [Hf'|Hf']; destruct (IH _ Hf') as [->|Hk]; auto; right; lia.
+  - rewrite Forall_forall in Hl. specialize (Hl _ Hin). inversion Hl as [? ? _ Hpay _]; subst.
+    destruct (Hpay _ _ _ He Hp) as [_ Hb]. exact (IH _ Hb).
+Qed.
+
+(* no accepted text contains more than PARSE_DEPTH_MAX nested #if blocks, also across asm blocks and #else/#elif arms *)
+Theorem C19_block_depth : forall t nodes w k, parse_file t = POk nodes w -> nest_ge k nodes -> (k <= PARSE_DEPTH_MAX)%nat.
+Proof.
+  intros t nodes w k H Hn. apply parse_file_ok in H. destruct (depth_bound t k nodes Hn 0%nat H) as [->|Hk]; lia.
+Qed.
+
+(* ---------- table obligations and non-vacuity ---------- *)
+From CA Require Gen.Generated.
+Lemma limits_match_source :
+  Z.of_N BIGINT_MAX_BITS = Generated.BIGINT_MAX_BITS /\ Z.of_nat PARSE_DEPTH_MAX = Generated.PARSE_RECURSION_DEPTH_MAX.
+Proof. split; reflexivity. Qed.
+
+Fixpoint rep {X} (n : nat) (l : list X) : list X := match n with O => [] | S k => l ++ rep k l end.
+(* "#if 1\n{\n" ^ k ++ "}\n" ^ k *)
+Definition if_nest (k : nat) : text := rep k [35;105;102;32;49;10;123;10] ++ rep k [125;10].
+(* "x=asm{\n" ^ k ++ "}\n" ^ k *)
+Definition asm_nest (k : nat) : text := rep k [120;61;97;115;109;123;10] ++ rep k [125;10].
+(* "#if a\n{\n}\n" ++ "#elif a\n{\n}\n" ^ k *)
+Definition elif_chain (k : nat) : text := [35;105;102;32;97;10;123;10;125;10] ++ rep k [35;101;108;105;102;32;97;10;123;10;125;10].
+Definition accepted (r : pres (list anode)) : bool := match r with POk _ _ => true | _ => false end.
+Definition rejected (r : pres (list anode)) : bool := match r with PErr => true | _ => false end.
+
+(* exactly the limit is accepted, one more is rejected *)
+Example C19_block_depth_nonvacuous :
+  accepted (parse_file (if_nest 50)) = true /\ rejected (parse_file (if_nest 51)) = true.
+Proof. split; vm_compute; reflexivity. Qed.
+
+(* the nesting of asm blocks through expressions and the length of #elif chains are NOT counted: the recursion depth of
+   the line parser is not bounded by the block limit + the expression limit (known findings F56 / F57) *)
+Example C19_depth_unbounded_witnesses :
+  accepted (parse_file (asm_nest 120)) = true /\ accepted (parse_file (elif_chain 120)) = true.
+Proof. split; vm_compute; reflexivity. Qed.
+
+
+(* `; é` / `#d8 "ü", asm { ld é }` / `.l: #if l { x = 1 ; ü` / ` }` : multi-byte characters before and inside the nodes;
+   the node inside the asm block and the node inside the #if arm are sub-nodes with their own (valid) spans *)
+Definition sample_text : text :=
+  [59;32;233;10;35;100;56;32;34;252;34;44;32;97;115;109;32;123;32;108;100;32;233;32;125;10;46;108;58;32;35;105;102;32;108;32;123;32;120;32;61;32;49;32;59;32;252;10;32;125;10].
+Definition sample_nodes : list anode :=
+  [NData (5, 8) (Some 8) [GStr [34; 252; 34]; GAsm (15, 28) [NInstr (21, 26) [108; 100; 32; 233]]];
+   NLabel (Some (29, 32)) 1 [108];
+   NIf (33, 36) (GVar 0 [[108]]) [NConst (Some (41, 42)) 0 [120] false (GNum 1 None)] None].
+Example C13_spans_nonvacuous :
+  parse_file sample_text = POk sample_nodes {| tail := []; cur := 55; lim := 55 |} /\
+  sub (NInstr (21, 26) [108; 100; 32; 233]) (NData (5, 8) (Some 8) [GStr [34; 252; 34]; GAsm (15, 28) [NInstr (21, 26) [108; 100; 32; 233]]]) /\
+  nest_ge 1 sample_nodes.
+Proof.
+  split; [vm_compute; reflexivity|]. split.
+  - eapply sub_asm with (e := GAsm (15, 28) [NInstr (21, 26) [108; 100; 32; 233]]) (asp := (15, 28)) (body := [NInstr (21, 26) [108; 100; 32; 233]]).
+    + cbn [exprs_of]. right. left. reflexivity.
+    + left. reflexivity.
+    + left. reflexivity.
+    + apply sub_refl.
+  - eapply ng_true; [right; right; left; reflexivity | apply ng_zero].
+Qed.
+
+(* ================================================================================================ *)
+(* I. C03: the fuel is only a termination device (answers are stable under more fuel)                *)
+
+Definition stable {X} (r r' : pres X) : Prop := r = PFuel \/ r' = r.
+
+Lemma stable_refl {X} (r : pres X) : stable r r.
+Proof. right. reflexivity. Qed.
+Lemma stable_fuel {X} (r' : pres X) : stable PFuel r'.
+Proof. left. reflexivity. Qed.
+Lemma stable_bind {X Y} (m m' : pres X) (k k' : X -> walker -> pres Y) :
+  stable m m' -> (forall a w, stable (k a w) (k' a w)) -> stable (bind m k) (bind m' k').
+Proof.
+  intros [->|->] Hk; [left; reflexivity|]. destruct m as [a w| |]; cbn [bind]; [apply Hk | right; reflexivity | left; reflexivity].
+Qed.
+
+Ltac stab_core IHtac :=
+  repeat first
+    [ apply stable_refl
+    | apply stable_fuel
+    | IHtac
+    | apply stable_bind; [|intros ? ?]
+    | match goal with
+      | |- stable (let _ := _ in _) _ => cbv zeta
+      | |- stable (if ?b then _ else _) (if ?b then _ else _) => destruct b
+      | |- stable (match ?x with _ => _ end) (match ?x with _ => _ end) => destruct x
+      end ].
+
+Section ExprStable.
+Context {A : Type}.
+Variables h h' : walker -> pres (span * A).
+Hypothesis Hh : forall w, stable (h w) (h' w).
+
+Definition sinv (f : nat) : Prop :=
+  (forall d w, stable (gparse_expr h f d w) (gparse_expr h' (S f) d w)) /\
+  (forall d w, stable (gparse_assign h f d w) (gparse_assign h' (S f) d w)) /\
+  (forall d lv w, stable (gparse_levels h f d lv w) (gparse_levels h' (S f) d lv w)) /\
+  (forall d ops inner l w, stable (gbinary_loop h f d ops inner l w) (gbinary_loop h' (S f) d ops inner l w)) /\
+  (forall d w, stable (gparse_slice h f d w) (gparse_slice h' (S f) d w)) /\
+  (forall d w, stable (gparse_short h f d w) (gparse_short h' (S f) d w)) /\
+  (forall d w, stable (gparse_unary h f d w) (gparse_unary h' (S f) d w)) /\
+  (forall d w, stable (gparse_call h f d w) (gparse_call h' (S f) d w)) /\
+  (forall d w acc, stable (gparse_args h f d w acc) (gparse_args h' (S f) d w acc)) /\
+  (forall d w, stable (gparse_leaf h f d w) (gparse_leaf h' (S f) d w)) /\
+  (forall d w acc, stable (gparse_block h f d w acc) (gparse_block h' (S f) d w acc)) /\
+  (forall w level, stable (gparse_var_dots h f w level) (gparse_var_dots h' (S f) w level)) /\
+  (forall w level acc, stable (gparse_var_names h f w level acc) (gparse_var_names h' (S f) w level acc)).
+
+Lemma sinv_all f : sinv f.
+Proof.
+  induction f as [|f IH].
+  - unfold sinv. repeat split; intros; apply stable_fuel.
+  - destruct IH as (I1 & I2 & I3 & I4 & I5 & I6 & I7 & I8 & I9 & I10 & I11 & I12 & I13).
+    unfold sinv. repeat match goal with |- _ /\ _ => split end; intros.
+    + rewrite (gparse_expr_S h f), (gparse_expr_S h' (S f)). stab_core ltac:(first [apply I1 | apply I2 | apply Hh]).
+    + rewrite (gparse_assign_S h f), (gparse_assign_S h' (S f)). stab_core ltac:(first [apply I1 | apply I3]).
+    + rewrite (gparse_levels_S h f), (gparse_levels_S h' (S f)). stab_core ltac:(first [apply I5 | apply I3 | apply I4]).
+    + rewrite (gbinary_loop_S h f), (gbinary_loop_S h' (S f)). stab_core ltac:(first [apply I3 | apply I4]).
+    + rewrite (gparse_slice_S h f), (gparse_slice_S h' (S f)). stab_core ltac:(first [apply I6 | apply I1]).
+    + rewrite (gparse_short_S h f), (gparse_short_S h' (S f)). stab_core ltac:(first [apply I7 | apply I10]).
+    + rewrite (gparse_unary_S h f), (gparse_unary_S h' (S f)). stab_core ltac:(first [apply I7 | apply I8]).
+    + rewrite (gparse_call_S h f), (gparse_call_S h' (S f)). stab_core ltac:(first [apply I10 | apply I9]).
+    + rewrite (gparse_args_S h f), (gparse_args_S h' (S f)). stab_core ltac:(first [apply I1 | apply I9]).
+    + rewrite (gparse_leaf_S h f), (gparse_leaf_S h' (S f)). stab_core ltac:(first [apply I11 | apply I1 | apply I12 | apply Hh]).
+    + rewrite (gparse_block_S h f), (gparse_block_S h' (S f)). stab_core ltac:(first [apply I1 | apply I11]).
+    + rewrite (gparse_var_dots_S h f), (gparse_var_dots_S h' (S f)). stab_core ltac:(first [apply I13 | apply I12]).
+    + rewrite (gparse_var_names_S h f), (gparse_var_names_S h' (S f)). stab_core ltac:(first [apply I13]).
+Qed.
+
+Lemma gparse_expr_stable f d w : stable (gparse_expr h f d w) (gparse_expr h' (S f) d w).
+Proof. destruct (sinv_all f) as (H & _). apply H. Qed.
+End ExprStable.
